@@ -199,7 +199,7 @@ def run(tier, seed, replay=None):
                 "above/tied/below of survivors, commutes with condensing; de-duplication / add-missing keep totals; tie expansion lists every linear "
                 "order once and preserves first-place, Borda and pairwise totals.  role 2: recorded calls of remove_cand (EVERY single tied / partial / "
                 "scored ballot of 3 candidates x EVERY removal subset of {A,B,C,Z} x profile / tuple / single-ballot form x condense x "
-                "leave_zero_weight_ballots in the thorough tier, a seeded fifth of it in the quick tier; seeded profiles of 2-5 ballots over 3-4 "
+                "leave_zero_weight_ballots in the thorough tier, a seeded third of it in the quick tier; seeded profiles of 2-5 ballots over 3-4 "
                 "candidates with collisions after removal), add_missing_cands (candidates without votes), expand_tied_ballot (every weak partial "
                 "ranking of 3 [and 4] candidates), resolve_profile_ties, remove_noncands (every untied ballot x every removal set; repeated "
                 "candidates), deduplicate_profiles (every sequence of <=4 names over 3 candidates), remove_empty_ballots, clean_profile (6 cleaning "
